@@ -1,8 +1,11 @@
-(* Extract_distsolve.v -- extraction of the C12 specification oracles and the rank-lifted solver
-   model (DistSolve.v, which builds on Krylov.v) to OCaml.  Directives: ExtractCommon.v. *)
+(* Extract_distsolve.v -- extraction of the C12 specification oracles, the rank-lifted solver
+   model (DistSolve.v, which builds on Krylov.v), the PMIS model (Pmis.v) and the model of the distributed
+   smoothed aggregation (DistSa.v) to OCaml.  Directives: ExtractCommon.v.
+   StaticMat / BlockInst: the static_matrix<T,b,b> Scalar instance; DistSa.v is run at BlockInst.BlockS QcS b by
+   ocaml/distsolve/ops_distsa.ml (block value types). *)
 From Amgcl Require Import ExtractCommon.
 From Coq Require Import QArith Qcanon.
-From Amgcl Require Import Scalar QcInst Vec Crs Kernels MatOps Dist Krylov DistSolve PmisSpec Pmis.
+From Amgcl Require Import Scalar QcInst Vec Crs Kernels MatOps Dist Krylov DistSolve PmisSpec Pmis DistSa Inverse StaticMat BlockInst.
 Separate Extraction
   QcInst.QcS Scalar.is_zero Scalar.smax Scalar.smin
-  Vec Crs Kernels MatOps Dist DistSolve PmisSpec Pmis.
+  Vec Crs Kernels MatOps Dist DistSolve PmisSpec Pmis DistSa StaticMat BlockInst.
